@@ -187,6 +187,15 @@ func execC11(op string, a []sx) sx {
 		n := 0
 		err = avro.ReadFile(bufio.NewReader(bytes.NewReader(file)), reflect.New(b.typ).Elem().Interface(), func(val unsafe.Pointer, rb *avro.ResourceBank) error {
 			n++
+			if n%2 == 1 {
+				// before anything else refers to what was decoded: the record the callback is handed must itself keep
+				// its slices, maps and pointers alive
+				churn(1)
+				if bad == nil {
+					which = n - 1
+					bad = check(fmt.Sprintf("in-callback-record-%d-before-copy", n), reflect.NewAt(b.typ, val).Elem())
+				}
+			}
 			cp := reflect.New(b.typ)
 			cp.Elem().Set(reflect.NewAt(b.typ, val).Elem())
 			retained = append(retained, cp)
